@@ -1,15 +1,145 @@
 /-
-C06 — the database-backed trie engine agrees with the spec (work in progress: threshold first).
--/
-import Gossamer.Model.C06
-namespace Gossamer.C06
-open Gossamer
+C06 — the database-backed trie engine (`pkg/trie/triedb`) agrees with the spec.
 
-/-- `NewValue` stores a value by hash exactly in version 1 and when it is longer than 32 bytes -/
+Model: `Gossamer/Model/C06.lean` (`insertAt`/`insertInspector`, `removeAt`/`removeInspector`/`fix`,
+`NewValue`, `commit`/`commitChild`, `lookup`/`TrieLookup`, deathRow) over an association-list
+database.  Spec: the ordered map `specAll [] ops` of the history and its Merkle root `specRoot`
+(C01: hash of the encoding of the canonical trie `build`).
+
+FULL STATEMENT (comment; proved below for histories that stay inside one session, the rest is
+covered by the correspondence run):
+  for every history `ops` of put / del / get / commit / reopen on a fresh `TrieDB` over an empty
+  database, no op fails, `Hash()` at the end is `specRoot ver H (specAll [] ops)`, and a fresh
+  `NewTrieDB(root, db)` returns `OMap.get k (specAll [] ops)` for every key `k`.
+* `C06_root_eq_spec_partial`   the root clause for every history without an intermediate
+                               commit / reopen (extra hypothesis = exactly that)
+* `C06_reopen_partial`         the reopen clause for the same histories (H collision-free, decoder
+                               right on the nodes of the committed trie); `C06_reopen_collision`
+                               states the collision clause explicitly
+* `C06_threshold`              `NewValue` hashes a value iff V1 and longer than 32 bytes
+-/
+import Gossamer.Lib.TrieDBReopen
+set_option linter.unusedSectionVars false
+set_option linter.unusedSimpArgs false
+namespace Gossamer.C06
+open Gossamer Gossamer.Trie
+
+/-- a trie that represents `es` has the spec root of `es` (C01) -/
+theorem root_of_rep (ver : Ver) (H : Bytes → Bytes) {t : Trie} {es : Entries} (h : Rep t es) :
+    hashTrie ver H t = specRoot ver H es := by
+  rw [specRoot, ← h.eq_build]
+
+/-- a session relates the in-memory tree to the canonical trie of the map, op by op -/
+theorem sess_exec (c : Cfg) (hdec0 : c.dec [0] = some .empty) (ops : List Op) :
+    (∀ op ∈ ops, op.inSession = true) → ∀ (s : St) (t : Trie) (es : Entries), Sess c s t → Rep t es →
+      ∃ s' t', execAll c s ops = .ok s' ∧ Sess c s' t' ∧ Rep t' (specAll es ops) := by
+  induction ops with
+  | nil => intro _ s t es hs hr; exact ⟨s, t, rfl, hs, hr⟩
+  | cons op r ih =>
+    intro hin s t es hs hr
+    have hin' : ∀ op ∈ r, op.inSession = true := fun o ho => hin o (List.mem_cons_of_mem _ ho)
+    have hop := hin op (List.mem_cons_self ..)
+    cases op with
+    | put k v =>
+      obtain ⟨s1, h1, hs1⟩ := sess_put c hdec0 hs k v
+      obtain ⟨s', t', h2, hs2, hr2⟩ := ih hin' s1 _ _ hs1 (rep_tInsert hr k v)
+      exact ⟨s', t', by simp only [execAll, execOp, h1, h2], hs2, hr2⟩
+    | del k =>
+      obtain ⟨s1, h1, hs1⟩ := sess_del c hdec0 hs hr.canon k
+      obtain ⟨s', t', h2, hs2, hr2⟩ := ih hin' s1 _ _ hs1 (rep_tRemove hr k)
+      exact ⟨s', t', by simp only [execAll, execOp, h1, h2], hs2, hr2⟩
+    | get k =>
+      obtain ⟨s', t', h2, hs2, hr2⟩ := ih hin' s t es hs hr
+      exact ⟨s', t', by simp only [execAll, execOp, h2], hs2, hr2⟩
+    | commit => simp [Op.inSession] at hop
+    | reopen => simp [Op.inSession] at hop
+    | bad =>
+      obtain ⟨s', t', h2, hs2, hr2⟩ := ih hin' s t es hs hr
+      exact ⟨s', t', by simp only [execAll, execOp, h2], hs2, hr2⟩
+
+/-- **Root.**  For every history of puts, deletes (of any key, stored or not) and reads on a fresh
+    `TrieDB` over an empty database, in either version: no op fails, `commit` succeeds, and the root
+    hash it computes is the spec root of the resulting map.  `H` is any hash function; `dec` any
+    decoder that decodes the empty node `[0]`. -/
+theorem C06_root_eq_spec_partial (c : Cfg) (hdec0 : c.dec [0] = some .empty) (ops : List Op)
+    (hs : ∀ op ∈ ops, op.inSession = true) :
+    ∃ s s', execAll c (St.init c.H) ops = .ok s ∧ commit c.H s = .ok s' ∧
+      s'.rootHash = specRoot c.ver c.H (specAll [] ops) := by
+  obtain ⟨s, t, h1, hs1, hr1⟩ := sess_exec c hdec0 ops hs _ nil [] (sess_init c) Rep.empty
+  obtain ⟨s', h2, h3⟩ := sess_commit c hs1
+  exact ⟨s, s', h1, h2, by rw [h3, root_of_rep c.ver c.H hr1]⟩
+
+/-- the root does not depend on the history, only on the resulting map -/
+theorem C06_history_independent (c : Cfg) (hdec0 : c.dec [0] = some .empty) (ops1 ops2 : List Op)
+    (h1 : ∀ op ∈ ops1, op.inSession = true) (h2 : ∀ op ∈ ops2, op.inSession = true)
+    (hm : specAll [] ops1 = specAll [] ops2) :
+    ∃ s1 s1' s2 s2', execAll c (St.init c.H) ops1 = .ok s1 ∧ commit c.H s1 = .ok s1' ∧
+      execAll c (St.init c.H) ops2 = .ok s2 ∧ commit c.H s2 = .ok s2' ∧
+      s1'.rootHash = s2'.rootHash := by
+  obtain ⟨s1, s1', a1, b1, c1⟩ := C06_root_eq_spec_partial c hdec0 ops1 h1
+  obtain ⟨s2, s2', a2, b2, c2⟩ := C06_root_eq_spec_partial c hdec0 ops2 h2
+  exact ⟨s1, s1', s2, s2', a1, b1, a2, b2, by rw [c1, c2, hm]⟩
+
+/-- what the theorems need of the decoder `dec` (`codec.Decode`, C07): it inverts the node encoding
+    on the nodes of the committed trie (`viewOf`: values inline or by hash, children inlined when
+    shorter than 32 bytes, else by hash) and decodes the empty node -/
+def DecodesTrie (c : Cfg) (t : Trie) : Prop :=
+  c.dec [0] = some .empty ∧
+  ∀ n, NodeOf n t → c.dec (encodeNode c.ver c.H n) = some (viewOf c.ver c.H n)
+
+/-- **Reopen.**  After any history of puts, deletes and reads on a fresh `TrieDB` over an empty
+    database and a `commit`, a fresh `NewTrieDB(root, db)` returns for EVERY key `k` (stored or not)
+    exactly `get k` of the resulting map: the stored value for stored keys, `nil` for all others.
+    Hypotheses: `H` has 32-byte digests and no collisions (see `C06_reopen_collision` for the
+    explicit collision clause), and the decoder inverts the encoding on the nodes of the committed
+    trie (`build` of the map: the trie of the spec). -/
+theorem C06_reopen_partial (c : Cfg) (ops : List Op) (hs : ∀ op ∈ ops, op.inSession = true)
+    (hlen : ∀ x, (c.H x).length = 32) (hinj : ∀ a b, c.H a = c.H b → a = b)
+    (hdec : DecodesTrie c (build (specAll [] ops))) :
+    ∃ s s', execAll c (St.init c.H) ops = .ok s ∧ commit c.H s = .ok s' ∧
+      s'.rootHash = specRoot c.ver c.H (specAll [] ops) ∧
+      ∀ k, doGet c (reopenAt s') k = OMap.get k (specAll [] ops) := by
+  obtain ⟨s, t, h1, hs1, hr1⟩ := sess_exec c hdec.1 ops hs _ nil [] (sess_init c) Rep.empty
+  have ht : t = build (specAll [] ops) := hr1.eq_build
+  obtain ⟨s', h2, h3, h4⟩ := sess_reopen_get c hdec.1 hlen hinj hs1 (by rw [ht]; exact hdec.2)
+  refine ⟨s, s', h1, h2, by rw [h3, root_of_rep c.ver c.H hr1], fun k => ?_⟩
+  rw [h4 k, hr1.lookup_eq]
+
+/-- the same with the collision clause explicit: either `H` has a collision, or the fresh instance
+    agrees with the map on every key -/
+theorem C06_reopen_collision (c : Cfg) (ops : List Op) (hs : ∀ op ∈ ops, op.inSession = true)
+    (hlen : ∀ x, (c.H x).length = 32) (hdec : DecodesTrie c (build (specAll [] ops))) :
+    (∃ a b, a ≠ b ∧ c.H a = c.H b) ∨
+    ∃ s s', execAll c (St.init c.H) ops = .ok s ∧ commit c.H s = .ok s' ∧
+      ∀ k, doGet c (reopenAt s') k = OMap.get k (specAll [] ops) := by
+  by_cases hcol : ∃ a b, a ≠ b ∧ c.H a = c.H b
+  · exact Or.inl hcol
+  · right
+    have hinj : ∀ a b, c.H a = c.H b → a = b := by
+      intro a b hab
+      by_cases hne : a = b
+      · exact hne
+      · exact absurd ⟨a, b, hne, hab⟩ hcol
+    obtain ⟨s, s', h1, h2, _, h4⟩ := C06_reopen_partial c ops hs hlen hinj hdec
+    exact ⟨s, s', h1, h2, h4⟩
+
+/-- `NewValue` stores a value by hash exactly in version 1 and when it is longer than 32 bytes
+    (the threshold of the spec encoding, `mustBeHashed`) -/
 theorem C06_threshold (ver : Ver) (v : Bytes) :
-    (∃ d, newValue ver v = .fresh d) ↔ (ver = Ver.v1 ∧ 32 < v.length) := by
-  cases ver
-  · simp [newValue, exceedsInline]
-  · by_cases h : 32 < v.length <;> simp [newValue, exceedsInline, v1MaxInline, h]
+    ((∃ d, newValue ver v = .fresh d) ↔ (ver = Ver.v1 ∧ 32 < v.length)) ∧
+    ((∃ d, newValue ver v = .fresh d) ↔ mustBeHashed ver v = true) := by
+  constructor
+  · cases ver
+    · simp [newValue, exceedsInline]
+    · by_cases h : 32 < v.length <;> simp [newValue, exceedsInline, v1MaxInline, h]
+  · cases ver
+    · simp [newValue, exceedsInline, mustBeHashed]
+    · by_cases h : 32 < v.length <;> simp [newValue, exceedsInline, v1MaxInline, mustBeHashed, h]
+
+/-- non-vacuity: a history with keys that are prefixes of one another, values of 31, 32 and 33
+    bytes, an overwrite and deletes of a stored and of an absent key is a session history -/
+example : ∀ op ∈ [Op.put [] (List.replicate 31 1), .put [0x10] (List.replicate 32 2),
+    .put [0x10, 0x01] (List.replicate 33 3), .put [0x10] [7], .del [0x10, 0x01], .del [0x55],
+    .get [0x10]], op.inSession = true := by decide
 
 end Gossamer.C06
